@@ -190,6 +190,26 @@ def corr(ctx):
                     else:
                         ops.append(Op("gray 0", "0", nontrivial=True, info={"site": site, "config": dict(c_, got=rows[r_])}, prop_ok=ok))
                 ctx.count("hard_%s_%s" % (kind, sname), B)
+                if sname == "ideal":
+                    # the same model object after its stage attributes were re-assigned (to the very same / to equivalent fresh stages):
+                    # a chain assembled from matching pairs must still return the message
+                    for which in ("constraint", "modulator", "all"):
+                        m2 = ChannelCodeModel(enc, IdentityConstraint(), inst.mod, make_channel(inst, None, None), inst.demod, dec)
+                        try:
+                            if which in ("constraint", "all"):
+                                m2.constraint = IdentityConstraint()
+                            if which in ("modulator", "all"):
+                                m2.modulator = inst.mod
+                            if which == "all":
+                                m2.encoder = enc; m2.demodulator = inst.demod; m2.decoder = dec
+                            o2 = m2(torch.tensor(msgs, dtype=torch.float32))
+                            o2 = o2[0] if isinstance(o2, tuple) else o2
+                            rows2 = [bstr(r) for r in o2.reshape(B, -1).tolist()]
+                        except Exception as e:
+                            rows2 = ["other:%s" % type(e).__name__] * B
+                        ops.append(Op("gray 0", "0", nontrivial=True, info={"site": "models:ChannelCodeModel.reassigned", "config": dict(cfg, reassigned=which, sent=[bstr(m_) for m_ in msgs], got=rows2)},
+                                      prop_ok=(rows2 == [bstr(m_) for m_ in msgs])))
+                    ctx.count("reassigned_stage_chains", 3)
     # ---------------- a modulation with memory in the chain: pi/4-QPSK (binary labelling), several calls on ONE model object,
     # in the default (training) mode where the alternation state is carried from call to call, and in evaluation mode after a reset
     from kaira.modulations import pi4qpsk
@@ -265,6 +285,8 @@ def search(ctx, mismatches, broken, prop_fail):
         seen.add(key)
         if site.endswith(".memory"):
             what = "Hamming(7,4) + syndrome decoder over pi/4-QPSK, %s mode, calls with %s blocks per row on one model object: sent %s, received %s" % (cfg.get("mode"), cfg.get("blocks_per_row_history"), cfg.get("sent"), cfg.get("got"))
+        elif site.endswith(".reassigned"):
+            what = "%s + %s decoder over %s, ideal channel, after re-assigning the model's stage attribute(s) [%s] to the same / equivalent stages: sent %s, received %s" % (cfg.get("code"), cfg.get("decoder"), cfg.get("table"), cfg.get("reassigned"), cfg.get("sent"), cfg.get("got"))
         elif site.endswith(".soft"):
             what = "soft chain %s over %s (%s channel, noise_var %s): sent %s, received %s" % (cfg.get("chain"), cfg.get("table"), cfg.get("scenario"), cfg.get("noise_var"), cfg.get("sent"), cfg.get("got"))
         elif pf in prop_fail:
